@@ -23,11 +23,11 @@ ENGINES = [
 
 META = {
     'C15': dict(
-        text="Kernel-checked theorems (lean/XV/Props/C15.lean) about an executable model of QCPendingTree after the two fix: commits (d92806d insertOrphan, 4320aec updateHighQC), quantified over ALL operation sequences (arrivals in any order, duplicates, competing children, updateHighQC, enforceUpdateHighQC, updateCommit, proposal-with-commit, vote-quorum, pacemaker) and all acyclic proposal worlds: tree_inv (Root's tree + orphan forest is a forest: edges agree with ParentId, roots distinct and nobody's sons, sons lists duplicate-free, every id reachable in exactly one way = stored at most once); stored_once (an inserted proposal is accepted and stored, unless OrphanMap shows it already went through the orphan list and was since expired/pruned); adopted_on_parent_arrival (no stored proposal waits beside its stored parent: it is in the parent's sons and not an orphan root); highqc_monotone (HighQC view non-decreasing over any history without enforceUpdateHighQC); markers_are_ancestors (Generic/Locked/Commit are parent/grandparent/great-grandparent of HighQC whenever set; only exception the initial CommitQC=Genesis placeholder while HighQC=Genesis); root_moves_down / root_only_descends (new Root is a node of the old tree; over histories the old Root stays an ancestor); pacemaker_monotone. The DFS fuel (number of placed ids) is proved sufficient under the invariant (dfs_complete). Tie: three comparisons are regenerated from source (Gen/QcTree.lean); everything else by correspondence: after EVERY op the full dump (root, 4 markers, pacemaker, tree edges, orphan roots, orphan-forest edges, OrphanMap) of the real structure is compared with the model, on all block trees x all arrival orders for n<=4 (quick) / n<=6 (thorough) and thousands of random interleavings up to 12 proposals; an impl-side oracle evaluates the invariant on the real pointers.",
+        text="Kernel-checked theorems (lean/XV/Props/C15.lean) about an executable model of QCPendingTree after the two fix: commits (98685d0 insertOrphan, 070bc29 updateHighQC), quantified over ALL operation sequences (arrivals in any order, duplicates, competing children, updateHighQC, enforceUpdateHighQC, updateCommit, proposal-with-commit, vote-quorum, pacemaker) and all acyclic proposal worlds: tree_inv (Root's tree + orphan forest is a forest: edges agree with ParentId, roots distinct and nobody's sons, sons lists duplicate-free, every id reachable in exactly one way = stored at most once); stored_once (an inserted proposal is accepted and stored, unless OrphanMap shows it already went through the orphan list and was since expired/pruned); adopted_on_parent_arrival (no stored proposal waits beside its stored parent: it is in the parent's sons and not an orphan root); highqc_monotone (HighQC view non-decreasing over any history without enforceUpdateHighQC); markers_are_ancestors (Generic/Locked/Commit are parent/grandparent/great-grandparent of HighQC whenever set; only exception the initial CommitQC=Genesis placeholder while HighQC=Genesis); root_moves_down / root_only_descends (new Root is a node of the old tree; over histories the old Root stays an ancestor); pacemaker_monotone. The DFS fuel (number of placed ids) is proved sufficient under the invariant (dfs_complete). Tie: three comparisons are regenerated from source (Gen/QcTree.lean); everything else by correspondence: after EVERY op the full dump (root, 4 markers, pacemaker, tree edges, orphan roots, orphan-forest edges, OrphanMap) of the real structure is compared with the model, on all block trees x all arrival orders for n<=4 (quick) / n<=6 (thorough) and thousands of random interleavings up to 12 proposals; an impl-side oracle evaluates the invariant on the real pointers.",
         design_ref='DESIGN.md §6 C15',
         note="Trusted: Lean kernel, the harness and its dump, the guard-fact extractor. Both defects found (orphan adoption, stale markers) are repaired in /repo and the theorems are about the repaired code; their replays stay in corpus/C15. Markers may still point at nodes pruned by updateCommit (updateCommit's own TODO): C15 as written constrains them to be HighQC's ancestors, not to lie inside the tree; the harness counts these states (info:marker-outside-tree) but does not report them. The real handleReceivedProposal/handleReceivedVoteMsg are exported by the hook but the harness drives only their tree/pacemaker effects (ops prop/vote), not message decoding, signatures or vote counting.",
         technique='Lean 4 invariant proof over a hand model of the pending tree (flat sons map + fuelled DFS proved complete); guard facts regenerated from source; differential correspondence after every op; impl-side invariant oracle with delta-debugged replays',
     ),
 }
 
-HOOK_COMMITS = ['aa2b2dd verif hook: chained-bft export shim (synchronous tree mutators, message handlers, tree dump)']
+HOOK_COMMITS = ['1cb5aa0 verif hook: chained-bft export shim (synchronous tree mutators, message handlers, tree dump)']
